@@ -807,6 +807,28 @@ func HandOps(f *Fed) []Case {
 		// a subscription operation sent like a query (POST): answered like any operation
 		{Q: "subscription { tick }", Vars: map[string]interface{}{}, Dec: "hand:subscription-by-post"},
 		{Q: "subscription { n1Changed { name phone } }", Vars: map[string]interface{}{}, Dec: "hand:subscription-by-post"},
+		// one response key selected twice at one level under different conditions: the field belongs to the answer as soon as one of them lets it
+		{Q: "{ n1s { name @skip(if: true) name } }", Vars: map[string]interface{}{}, Dec: "hand:same-key-different-directives"},
+		{Q: "{ n1s { name name @skip(if: true) } }", Vars: map[string]interface{}{}, Dec: "hand:same-key-different-directives"},
+		{Q: "{ n1s { phone @include(if: false) phone } }", Vars: map[string]interface{}{}, Dec: "hand:same-key-different-directives"},
+		{Q: "{ n2 @skip(if: true) { title } n2 { title } }", Vars: map[string]interface{}{}, Dec: "hand:same-key-different-directives"},
+		{Q: "{ n1s { name n2s @skip(if: true) { title } n2s { title owner { phone } } } }", Vars: map[string]interface{}{}, Dec: "hand:same-key-different-directives"},
+		{Q: "{ n1s { n2s { owner { phone } } n2s @include(if: false) { title } } }", Vars: map[string]interface{}{}, Dec: "hand:same-key-different-directives"},
+		{Q: "{ n1s { ... @skip(if: true) { name } name } }", Vars: map[string]interface{}{}, Dec: "hand:same-key-different-directives"},
+		{Q: "{ n2 @include(if: false) { ...F } n2 { title } } fragment F on N2 { owner { name } }", Vars: map[string]interface{}{}, Dec: "hand:same-key-different-directives"},
+		{Q: "query ($v: Boolean!) { n2 @include(if: $v) { title } n2 { owner { name } } }", Vars: map[string]interface{}{"v": false}, Dec: "hand:same-key-different-directives"},
+		{Q: "query ($v: Boolean!) { n2 @include(if: $v) { title } n2 { owner { name } } }", Vars: map[string]interface{}{"v": true}, Dec: "hand:same-key-different-directives"},
+		{Q: "mutation ($v: Boolean!) { ... @include(if: $v) { incr(by: 1) } incr(by: 1) }", Vars: map[string]interface{}{"v": false}, Dec: "hand:same-key-different-directives"},
+		{Q: "mutation { incr(by: 1) @skip(if: true) incr(by: 1) }", Vars: map[string]interface{}{}, Dec: "hand:same-key-different-directives"},
+		{Q: "query ($a: Boolean!, $b: Boolean!) { n1s { n2s @skip(if: $a) { title } n2s @include(if: $b) { owner { phone } } } }", Vars: map[string]interface{}{"a": true, "b": true}, Dec: "hand:same-key-two-conditions"},
+		{Q: "query ($a: Boolean!, $b: Boolean!) { n1s { n2s @skip(if: $a) { title } n2s @include(if: $b) { owner { phone } } } }", Vars: map[string]interface{}{"a": false, "b": false}, Dec: "hand:same-key-two-conditions"},
+		// a response key that is met first deeper down (an object under an alias) and then at the level it is looked up at (a list with a field of another service below)
+		{Q: "{ n1s { v { n2s: w { b } } n2s { title } } }", Vars: map[string]interface{}{}, Dec: "hand:key-deeper-first"},
+		{Q: "{ n1s { n2s { title } v { n2s: w { b } } } }", Vars: map[string]interface{}{}, Dec: "hand:key-deeper-first"},
+		{Q: "{ n2 { owner { v { n2s: w { b } } n2s { title } } } }", Vars: map[string]interface{}{}, Dec: "hand:key-deeper-first"},
+		{Q: "{ v { maybeN1s: w { b } } maybeN1s { name } }", Vars: map[string]interface{}{}, Dec: "hand:key-deeper-first"},
+		{Q: "{ x: n1s { a { n1s: b { id } } } n1s { p } }", Vars: map[string]interface{}{}, Dec: "hand:key-deeper-first"},
+		{Q: "{ n2 { owner { v { owner: w { b } } } } }", Vars: map[string]interface{}{}, Dec: "hand:key-deeper-first"},
 		// a literal that reads like the name of a variable used elsewhere
 		{Q: "query ($name: Int) { echo(x: $name) n1ByName: n1s { calc(x: 1) } }", Vars: map[string]interface{}{"name": 5}, Dec: "hand:literal-like-variable"},
 	}
